@@ -572,6 +572,11 @@ def r_warmfit(A, ctx, scope, rule="R-WARMFIT"):
         else:
             reads = list(ast.walk(root))
         for e in reads:
+            if isinstance(e, ast.Call) and ast.unparse(e.func) == "getattr" and len(e.args) >= 2 \
+                    and isinstance(e.args[0], ast.Name) and e.args[0].id == "model" \
+                    and isinstance(e.args[1], ast.Constant) and e.args[1].value in ("coef_", "intercept_", "dual_coef_"):
+                e = ast.Attribute(value=e.args[0], attr=e.args[1].value, ctx=ast.Load(),
+                                  lineno=e.lineno, col_offset=e.col_offset)
             if isinstance(e, ast.Attribute) and isinstance(e.ctx, ast.Load) \
                     and isinstance(e.value, ast.Name) and e.value.id == "model" \
                     and e.attr in ("coef_", "intercept_", "dual_coef_"):
@@ -581,7 +586,7 @@ def r_warmfit(A, ctx, scope, rule="R-WARMFIT"):
                 facts = cfg.facts_at(nd.id)
                 ws = any("warm_start" in ast.unparse(t) and lab == "true" for t, lab, _ in facts) \
                     or (nd.kind == "test" and "warm_start" in ast.unparse(nd.ast))
-                multiclass = any("n_classes_" in ast.unparse(t) for t, lab, _ in facts)
+                multiclass = any("n_classes_" in ast.unparse(t) and lab == "true" for t, lab, _ in facts)
                 if multiclass:
                     continue
                 n += 1
